@@ -12,7 +12,9 @@ RULE = ('each evaluation is one probe on a generated hierarchy whose signal name
         'CS/CG/LOCAL-SIGNALS/LOCAL-SCOPES probed before and after. Every command also runs on the extracted Coq model. '
         'distinct = distinct probe texts; non-trivial = all generated probes')
 
-STEMS = ['m0', 'm0x', 'a', 'ab', 'r', 'm1']
+# a quoted bare operator name reads as the operator, so such names are not used as alias targets written 'name
+OPLIKE = ('max', 'last', 'step')
+STEMS = ['m0', 'm0x', 'a', 'ab', 'r', 'm1', 'max', 'last', 'step']      # some signals are spelled like operators
 SEPS = ['_', '.', 'x', '']
 SUFS = ['valid', 'ready', 'data']
 
@@ -33,6 +35,8 @@ def gen_trace(rng):
                 leafs.add(st + rng.choice(SEPS) + rng.choice(SUFS))
             else:
                 leafs.add(st + rng.choice(['', '<0>', '<1>', '_n']))
+        if sc == scopes[-1]:
+            leafs.add(rng.choice(OPLIKE))        # one signal of the innermost scope is spelled like an operator
         if sc == 'top' and 'top.u' in scopes and rng.random() < 0.6:
             # a sibling of the scope top.u whose name is the scope's name immediately followed by more text
             leafs.add('u' + rng.choice(['_valid', '_ready', 'x', '_q', 'data']))
@@ -125,6 +129,17 @@ def gen_case(rng, cid):
             refs.append((f'(get "{full}")', full))
         else:
             refs.append((f"(get '{full})", full))
+    # a group name without a dot keeps the captured scope: ~n inside (in-scope S (in-group "g_" ..)) is still S.n
+    for _ in range(2):
+        full = rng.choice(names)
+        cands = [(full[:i], full[i + 1:]) for i, ch in enumerate(full) if ch == '.' and full[:i] in info['scopes']]
+        s_, l_ = rng.choice(cands)
+        refs.append((f'(in-scope "{s_}" (in-group "{rng.choice(["g_", "p", "m0"])}" ~{l_}))', full))
+    for full in names:
+        sc, leaf = full.rsplit('.', 1)
+        if leaf in OPLIKE:
+            refs.append((f'(in-scope "{sc}" ~{leaf})', full))
+            refs.append((f'(in-group "{sc}." #{leaf})', full))
     for i in range(info['n']):
         p = ev('(list ' + ' '.join(f'{r} {f}' for r, f in refs) + ')')
         probes.append(('pairs', p, [r for r, _ in refs]))
@@ -154,7 +169,7 @@ def gen_case(rng, cid):
             tgt = rng.choice(names)
             ev(f"(alias x '{tgt})" if rng.random() < 0.5 else f'(alias x "{tgt}")')
             al['x'] = tgt
-            top = [n for n in names if n.startswith('top.') and '.' not in n[4:]]
+            top = [n for n in names if n.startswith('top.') and '.' not in n[4:] and n[4:] not in OPLIKE]
             if top:
                 t2 = rng.choice(top)
                 ev(f"(alias y '{t2[4:]})")
@@ -170,7 +185,7 @@ def gen_case(rng, cid):
             p = ev('(list ' + ' '.join(f'{f} {al["y"] if f == "(rdsx)" else want}' for f in forms) + ')')
             probes.append(('pairs', p, forms))
     # (c2) an alias named like a signal of the scope: ~n / #n follow the alias while it exists and denote S.n again after unalias
-    top = [n for n in names if n.startswith('top.') and '.' not in n[4:]]
+    top = [n for n in names if n.startswith('top.') and '.' not in n[4:] and n[4:] not in OPLIKE]
     if len(top) >= 2:
         b1 = rng.choice(top)
         cur = b1
